@@ -1,0 +1,62 @@
+//! Instrumentation for external verification.
+//!
+//! Only compiled with `--cfg datamatrix_verif`; records what the encodation
+//! planner did (per iteration: plans stepped, mode switches tried, plans alive
+//! after pruning; finally the chosen plan and its cost).
+use alloc::vec::Vec;
+use std::cell::{Cell, RefCell};
+
+#[derive(Debug, Clone, PartialEq)]
+pub enum PlanEvent {
+    /// `optimize()` was called for `n` input characters with `written` codewords already present.
+    Start { n: usize, written: usize, start_enabled: bool, seeds: usize },
+    /// One iteration of the main loop.
+    Iterate {
+        iteration: usize,
+        /// number of `step()` calls on live plans
+        stepped: usize,
+        /// number of `add_switches()` calls (each tries at most one new plan per other mode)
+        switch_calls: usize,
+        /// number of plans created by them
+        spawned: usize,
+        /// plans before pruning
+        before_prune: usize,
+        /// (start mode index, current mode index) of the plans alive after pruning
+        alive: Vec<(u8, u8)>,
+    },
+    /// The plan selected at the end: cost in twelfths of a codeword and the switches.
+    Chosen { cost12: u32, switches: Vec<(usize, u8)> },
+    /// `optimize()` returned `None`.
+    NoPlan,
+}
+
+std::thread_local! {
+    static TRACE: RefCell<Vec<PlanEvent>> = RefCell::new(Vec::new());
+    static STEPS: Cell<u64> = Cell::new(0);
+    static LIMIT: Cell<u64> = Cell::new(u64::MAX);
+}
+
+pub(crate) fn record(e: PlanEvent) {
+    TRACE.with(|t| t.borrow_mut().push(e));
+}
+
+/// Take (and clear) the events recorded on this thread.
+pub fn take_plan_trace() -> Vec<PlanEvent> {
+    TRACE.with(|t| core::mem::take(&mut *t.borrow_mut()))
+}
+
+pub(crate) fn start(n: usize) {
+    STEPS.with(|s| s.set(0));
+    // generous budget: an exponential planner is stopped instead of exhausting memory
+    LIMIT.with(|l| l.set(50 * (216 * (n as u64 + 1) + 6)));
+}
+
+pub(crate) fn count_steps(k: usize) {
+    let total = STEPS.with(|s| {
+        s.set(s.get() + k as u64);
+        s.get()
+    });
+    if total > LIMIT.with(|l| l.get()) {
+        panic!("verif: planner step budget exceeded ({} steps)", total);
+    }
+}
